@@ -24,6 +24,9 @@ type conn struct {
 	c    *net.TCPConn
 	peer int    // number of this connection in the case
 	addr string // our local address = the id nsqlookupd gives the peer
+	// soft: a server that does not close the connection in time is recorded (hung) instead
+	// of ending the driver (C15: "stops answering" is a verdict, not a harness error)
+	soft, hung bool
 }
 
 func dial(tcpAddr string, peer int, magic []byte) (*conn, error) {
@@ -67,7 +70,10 @@ func (k *conn) waitClosed() {
 		_, err := k.c.Read(buf)
 		if err != nil {
 			if ne, ok := err.(net.Error); ok && ne.Timeout() {
-				lib.Fatalf("connection %s: the server did not close it within %s", k.addr, ioTimeout)
+				if !k.soft {
+					lib.Fatalf("connection %s: the server did not close it within %s", k.addr, ioTimeout)
+				}
+				k.hung = true
 			}
 			break
 		}
@@ -125,6 +131,35 @@ func frameClass(f []byte) string {
 type httpc struct {
 	base   string
 	client *http.Client
+	// soft: a view that cannot be fetched or parsed is not a harness error but a fact about
+	// the daemon (C15: it may be dying at that very moment): the fetchers panic with a
+	// viewFailure, recovered by tryViews
+	soft bool
+}
+
+type viewFailure struct{ msg string }
+
+func (h *httpc) fail(format string, a ...interface{}) {
+	if h.soft {
+		panic(viewFailure{fmt.Sprintf(format, a...)})
+	}
+	lib.Fatalf(format, a...)
+}
+
+// tryViews runs f (a function that fetches views); with soft set, a failing fetch makes it
+// return false and the reason instead of ending the driver.
+func (h *httpc) tryViews(f func()) (ok bool, why string) {
+	defer func() {
+		if r := recover(); r != nil {
+			vf, is := r.(viewFailure)
+			if !is {
+				panic(r)
+			}
+			ok, why = false, vf.msg
+		}
+	}()
+	f()
+	return true, ""
 }
 
 func newHTTP(addr string) *httpc {
@@ -183,7 +218,7 @@ func (h *httpc) topics() []string {
 		Topics []string `json:"topics"`
 	}
 	if st != 200 || json.Unmarshal(b, &d) != nil {
-		lib.Fatalf("/topics: status %d body %q", st, b)
+		h.fail("/topics: status %d body %q", st, b)
 	}
 	sort.Strings(d.Topics)
 	return d.Topics
@@ -195,7 +230,7 @@ func (h *httpc) channels(topic string) []string {
 		Channels []string `json:"channels"`
 	}
 	if st != 200 || json.Unmarshal(b, &d) != nil {
-		lib.Fatalf("/channels: status %d body %q", st, b)
+		h.fail("/channels: status %d body %q", st, b)
 	}
 	sort.Strings(d.Channels)
 	return d.Channels
@@ -213,7 +248,7 @@ func (h *httpc) lookup(topic string, pm peerMap) lookupObs {
 		} `json:"producers"`
 	}
 	if st != 200 || json.Unmarshal(b, &d) != nil {
-		lib.Fatalf("/lookup: status %d body %q", st, b)
+		h.fail("/lookup: status %d body %q", st, b)
 	}
 	o := lookupObs{Found: true, Channels: d.Channels}
 	sort.Strings(o.Channels)
@@ -234,12 +269,12 @@ func (h *httpc) nodes(pm peerMap) []nodeObs {
 		} `json:"producers"`
 	}
 	if st != 200 || json.Unmarshal(b, &d) != nil {
-		lib.Fatalf("/nodes: status %d body %q", st, b)
+		h.fail("/nodes: status %d body %q", st, b)
 	}
 	var out []nodeObs
 	for _, p := range d.Producers {
 		if len(p.Topics) != len(p.Tombstones) {
-			lib.Fatalf("/nodes: %d topics but %d tombstones", len(p.Topics), len(p.Tombstones))
+			h.fail("/nodes: %d topics but %d tombstones", len(p.Topics), len(p.Tombstones))
 		}
 		out = append(out, nodeObs{Peer: pm.get(p.RemoteAddress), Topics: p.Topics, Tombs: p.Tombstones})
 	}
@@ -256,13 +291,13 @@ func (h *httpc) debug(pm peerMap) []debugObs {
 		HTTPPort   int    `json:"http_port"`
 	}
 	if st != 200 || json.Unmarshal(b, &d) != nil {
-		lib.Fatalf("/debug: status %d body %q", st, b)
+		h.fail("/debug: status %d body %q", st, b)
 	}
 	var out []debugObs
 	for key, ps := range d {
 		parts := strings.SplitN(key, ":", 3)
 		if len(parts) != 3 {
-			lib.Fatalf("/debug: key %q", key)
+			h.fail("/debug: key %q", key)
 		}
 		for _, p := range ps {
 			out = append(out, debugObs{Cat: parts[0], Key: parts[1], Sub: parts[2], Peer: pm.get(p.ID), Tomb: p.Tombstoned,
